@@ -62,7 +62,7 @@ func LoadWorld(dir string, patterns []string, overlay map[string][]byte) (*World
 	if len(errs) > 0 {
 		return nil, fmt.Errorf("load errors:\n%s", strings.Join(errs, "\n"))
 	}
-	prog, spkgs := ssautil.Packages(pkgs, ssa.InstantiateGenerics)
+	prog, spkgs := ssautil.Packages(pkgs, ssa.InstantiateGenerics|ssa.GlobalDebug)
 	prog.Build()
 	w := &World{Fset: pkgs[0].Fset, Pkgs: pkgs, Prog: prog, SPkgs: map[string]*ssa.Package{}, ByPath: map[string]*packages.Package{}, Funcs: map[string]*ssa.Function{}}
 	for i, p := range pkgs {
